@@ -44,6 +44,25 @@ CHECKS = {
     ),
 }
 
-# properties whose check is still under construction: listed as not claimed until their check exists
-PENDING = {f"C{n:02d}": "check under construction in this round; not claimed until it exists"
-           for n in (2, 3, 5, 6, 7, 8, 10, 11, 12, 13, 14, 15, 18, 20)}
+ALL = [f"C{n:02d}" for n in range(1, 21)]
+NA = {"C01", "C16", "C17"}
+
+
+def pending():
+    return {p: "check under construction in this round; not claimed until it exists"
+            for p in ALL if p not in CHECKS and p not in NA}
+
+
+CHECKS["C15"] = dict(
+    category="other",
+    technique="typed-equality taint analysis over the normaliser; construction-order, eq/hash-consistency and "
+              "def-use pipeline rules",
+    text="Decides four structural necessary conditions of canonical normal forms: Literal arguments (0 == False) are "
+         "never operands of untyped ==/hash container operations anywhere they flow inside normalize_type.py; union and "
+         "literal normal forms always order their arguments and nothing rewrites them; __hash__ of every norm type "
+         "reads only what __eq__ compares and __eq__ answers for its own class family; union normalisation runs "
+         "unfold, dedup, literal merge, single-member collapse in that order.",
+    level_note="Trusted: Python ast; typing compares Literal args with their types. Idempotence, implicit parameters "
+               "and loader equivalence for equivalent hints are not decided.",
+    design_ref="DESIGN.md 2.2, 3/C15",
+)
